@@ -99,15 +99,66 @@ def _weight_matrix(chk, fi: FuncInfo):
     from engine.pyinterp import Stub
     from engine.rowabs import RowTable
 
+    class _UtcInstants(Stub):
+        """index.values / to_numpy(): the instants as UTC wall clock (the time zone is dropped)."""
+
+        def __init__(self, y, mo):
+            self.y, self.mo = y, mo
+
+        def astype(self, t):
+            if t in ("datetime64[M]", "M8[M]", "<M8[M]"):
+                return _UtcInstants(self.y, self.mo)
+            if t in (int, "int", "int64", "i8"):
+                return Ser((self.y - 1970) * 12 + (self.mo - 1))   # months since the epoch (after the cast to month resolution)
+            raise Unsupported(f"astype({t!r}) of datetime values")
+
     class _MonthIndex(Stub):
-        def __init__(self, m):
+        """One hour of local calendar month m (year 2017).  `du` says where that hour falls on the UTC calendar: the same month, the next
+        one (last local hours of a month, west of Greenwich) or the previous one (first local hours, east of Greenwich)."""
+
+        def __init__(self, m, du=0, aware=True):
+            self._m, self._du, self._aware = m, du, aware
             self.month = Ser(m)
+            self.year = Ser(2017)
+            self.tz = "some/zone" if aware else None
+
+        def _utc(self):
+            y, u = 2017, self._m + (self._du if self._aware else 0)
+            if u > 12:
+                y, u = y + 1, u - 12
+            if u < 1:
+                y, u = y - 1, u + 12
+            return y, u
+
+        @property
+        def values(self):
+            return _UtcInstants(*self._utc())
+
+        def to_numpy(self, *a, **k):
+            return _UtcInstants(*self._utc())
+
+        def tz_localize(self, tz=None, **k):
+            if tz is None:
+                return _MonthIndex(self._m, 0, False)      # local wall clock kept
+            if self._aware:
+                from engine.pyinterp import InterpRaised
+                raise InterpRaised("TypeError", "Already tz-aware, use tz_convert to convert.")
+            return _MonthIndex(self._m, 0, True)
+
+        def tz_convert(self, tz=None, **k):
+            if not self._aware:
+                from engine.pyinterp import InterpRaised
+                raise InterpRaised("TypeError", "Cannot convert tz-naive timestamps, use tz_localize to localize")
+            y, u = self._utc()
+            if tz is None or str(tz).upper() == "UTC":
+                return _MonthIndex(u, 0, tz is not None)    # UTC wall clock
+            raise Unsupported("tz_convert to a zone other than UTC")
 
     names = None
     W: Dict[str, Dict[int, float]] = {}
-    for m in range(1, 13):
+    for m, du, aware in [(m_, du_, True) for m_ in range(1, 13) for du_ in (0, 1, -1)] + [(m_, 0, False) for m_ in range(1, 13)]:
         it = Interp(step_limit=20_000)
-        idx = _MonthIndex(m)
+        idx = _MonthIndex(m, du, aware)
         try:
             t = Function(fi.node, ModuleEnv(chk.repo, fi.module, it, {"np": NPRow(), "numpy": NPRow(), "pd": PDRow(), "pandas": PDRow()}), it)(idx)
         except InterpRaised as e:
@@ -128,7 +179,13 @@ def _weight_matrix(chk, fi: FuncInfo):
             w = v.v if isinstance(v, Ser) else (1.0 if getattr(v, "b", None) is True else (0.0 if getattr(v, "b", None) is False else v))
             if not isinstance(w, (int, float)) or w is ABSENT:
                 raise AnalysisError(f"{fi.key}: weight `{c}` of month {m} is not a number")
-            W.setdefault(c, {})[m] = float(w)
+            if (du, aware) == (0, True):
+                W.setdefault(c, {})[m] = float(w)
+            else:
+                W.setdefault("__other_clock__", {}).setdefault((m, du, aware), {})[c] = float(w)
+    # the weights are a function of the *local* calendar month: an hour whose UTC month differs, and a tz-naive index, get the same row
+    off = W.pop("__other_clock__", {})
+    W["__clock_deviations__"] = [(m, du, aware, c, w, W[c][m]) for (m, du, aware), row in off.items() for c, w in row.items() if abs(w - W[c][m]) > 1e-12]
     return names, list(names), W
 
 
@@ -183,6 +240,13 @@ def run(chk):
         r1.require(False, "weight-tables|evaluable", f1.where(), f"cannot establish the weight tables: an entry is not a literal ({e})")
         n1 = None
     if n1 is not None:
+        for fi, Wt in ((f1, W1), (f3, W3), (fw, Ww)):
+            dev = Wt.pop("__clock_deviations__", [])
+            r1.require(not dev, f"{fi.key}|local-calendar-month", fi.where(),
+                       f"{fi.qualname}: the weights must follow the local calendar month of each hour; " + "; ".join(
+                           f"an hour of local month {m} that lies in {'the next' if du > 0 else 'the previous' if du < 0 else 'the same'} month on the UTC clock"
+                           f"{'' if aware else ' (tz-naive index)'} gets weight {w} in `{c}` instead of {w0}" for m, du, aware, c, w, w0 in dev[:2]),
+                       sample={"function": fi.qualname, "clock_scenarios": 48})
         for fi, names, cols in ((f1, n1, c1), (f3, n3, c3), (fw, nw, cw)):
             r1.require(cols == names, f"{fi.key}|columns==keys", fi.where(), f"{fi.key}: `columns=` list {cols} differs from the generated keys {names}: unmatched columns are silently all-NaN")
             r1.require(len(names) == len(set(names)) == 12, f"{fi.key}|12-distinct-segments", fi.where(), f"{fi.key}: expected 12 distinct segments, found {len(names)} ({len(set(names))} distinct)")
